@@ -80,6 +80,7 @@ type c06Env struct {
 }
 
 var c06Seq int
+var concOps int64
 
 func newC06Env(cfg c06Cfg) (*c06Env, error) {
 	c06Seq++
@@ -139,6 +140,15 @@ func childC06(args []string) int {
 	cfgs = append(cfgs, c06Cfg{10, 5000, 1, 4, true})
 	if run.Thorough() {
 		cfgs = append(cfgs, c06Cfg{64, 5000, 2, 8, true}, c06Cfg{2, 250, 1, 3, true})
+	}
+	if os.Getenv("VERIF_C06_ONLY_LARGE") != "" {
+		var l []c06Cfg
+		for _, c := range cfgs {
+			if c.Large {
+				l = append(l, c)
+			}
+		}
+		cfgs = l
 	}
 	for ci, cfg := range cfgs {
 		env, err := newC06Env(cfg)
@@ -256,6 +266,7 @@ func childC06(args []string) int {
 					}
 					exp := expected(m, c, true)
 					obs := handlerExec(h, c, 0)
+					atomic.AddInt64(&concOps, 1)
 					run.Count("concurrent_operations", 1)
 					if d := diffResult(c, exp, obs, true); d != "" {
 						run.Violation(fmt.Sprintf("batched|concurrent|%s|%s", opKind(c), d), map[string]interface{}{
@@ -268,11 +279,23 @@ func childC06(args []string) int {
 		close(start)
 		done := make(chan struct{})
 		go func() { wg.Wait(); close(done) }()
-		select {
-		case <-done:
-		case <-time.After(120 * time.Second):
-			run.Inconclusive("concurrent callers did not finish within the watchdog: " + cfg.String())
-			panic("watchdog: concurrent callers stuck: " + cfg.String())
+		// watchdog on progress, not on total time: large values under the race detector on a
+		// loaded machine are slow, but every single call is bounded (handlerExec reports a call
+		// that is out for 20 s as a hang, which the callers turn into a violation)
+		lastOps, lastChange := int64(-1), time.Now()
+	waitCallers:
+		for {
+			select {
+			case <-done:
+				break waitCallers
+			case <-time.After(5 * time.Second):
+				if n := atomic.LoadInt64(&concOps); n != lastOps {
+					lastOps, lastChange = n, time.Now()
+				} else if time.Since(lastChange) > 120*time.Second {
+					run.Inconclusive("concurrent callers made no progress for 120 s: " + cfg.String())
+					panic("watchdog: concurrent callers stuck: " + cfg.String())
+				}
+			}
 		}
 		run.Eval(1)
 		run.Distinct(fmt.Sprintf("conc|%s", cfg))
